@@ -83,17 +83,46 @@ Dir(obs, inv) == {[s EXCEPT !.tcs = {tc \in s.tcs : tc.inv = inv}] : s \in obs}
 NonLit(obs) == {[s EXCEPT !.tcs = {tc \in s.tcs : tc.p # ca.instProp /\ (tc.ks # {} \/ A!VC(tc.p, tc.k) = "nonliteral")}] : s \in obs}
 Flip(obs) == {[s EXCEPT !.tcs = {[tc EXCEPT !.inv = ~tc.inv] : tc \in s.tcs}] : s \in obs}
 NoTiesOf(X, ta, tc) == {x \in X : <<x[1], x[2], x[3]>> \notin ta /\ <<x[1], ~x[2], x[3]>> \notin tc}
-InverseRel(OA, OB, OC) ==
-  LET ta == A!TieGroups
+(* Known finding KF.C14.emptyside.  remove_empty_shapes drops a shape without constraints, and with it the constraints that   *)
+(* refer to it.  A shape whose nodes have incoming links only (shape-map node selectors on "sink" nodes) therefore exists with *)
+(* inverse_paths and not without - and the outgoing constraints of the shapes that point to it differ between the two runs, *)
+(* against the letter of C14.  The comparison is made on the shapes both runs have and outside the (shape, direction,        *)
+(* property) groups in which the inverse run refers to a shape the other run lost; a shape may only be lost by the run       *)
+(* without inverse paths if all its constraints are incoming ones or refer to lost shapes (reversed run: outgoing ones).    *)
+ObsKeys(O) == {s.key : s \in O}
+RefsOf(tc) == (IF A!IsShape(tc.k) THEN {A!KeyOfShape(tc.k)} ELSE {}) \cup {A!KeyOfShape(k) : k \in {x \in tc.ks : A!IsShape(x)}} \cup
+              {A!KeyOfShape(f[1]) : f \in {g \in tc.com : A!IsShape(g[1])}}
+CutGroups(O, gone) == UNION {{<<s.key, tc.inv, tc.p>> : tc \in {t \in s.tcs : RefsOf(t) \cap gone # {}}} : s \in O}
+Cut(O, gone, groups) == {[s EXCEPT !.tcs = {tc \in s.tcs : <<s.key, tc.inv, tc.p>> \notin groups}] : s \in {x \in O : x.key \notin gone}}
+FlipG(groups) == {<<g[1], ~g[2], g[3]>> : g \in groups}
+NoTieKeys(X, ta, tc) == {x \in X : <<x[1], x[2][1], x[2][2]>> \notin ta /\ <<x[1], ~x[2][1], x[2][2]>> \notin tc}
+InverseRel(OA0, OB0, OC0) ==
+  LET goneB == ObsKeys(OA0) \ ObsKeys(OB0)
+      goneC == ObsKeys(OA0) \ ObsKeys(OC0)
+      \* (the removal cascades: a shape whose only outgoing constraints refer to lost shapes is lost in turn)
+      okB == \A s \in OA0 : s.key \in goneB => \A tc \in s.tcs : tc.inv \/ RefsOf(tc) \cap goneB # {}
+      \* (instantiation triples are not reversed: an incoming instantiation constraint has no counterpart in the reversed run)
+      okC == \A s \in OA0 : s.key \in goneC => \A tc \in s.tcs : ~tc.inv \/ tc.p = ca.instProp \/ RefsOf(tc) \cap goneC # {}
+      gB == CutGroups(OA0, goneB)
+      gC == CutGroups(OA0, goneC)
+      OAb == Cut(OA0, goneB, gB)          \* the inverse run, seen against the run without inverse paths
+      OB == Cut(OB0, {}, gB)
+      OAc == Cut(OA0, goneC, gC)          \* the inverse run, seen against the run on the reversed graph
+      OC == Cut(OC0, {}, FlipG(gC))
+      ta == A!TieGroups
       tc == CR!TieGroups
       NoTies(X) == NoTiesOf(X, ta, tc)
   IN (IF ToSet(dc) # Reversed THEN {"MACHINERY.reverse"} ELSE {}) \cup
-     (IF A!Heads(OA) # B!Heads(OB) THEN {"C14.counts"} ELSE {}) \cup
-     (IF A!ConsOf(Dir(OA, FALSE)) # B!ConsOf(OB) THEN {"C14.direct"} ELSE {}) \cup
-     (IF A!Facts(Dir(OA, FALSE)) # B!Facts(OB) THEN {"C14.directfacts"} ELSE {}) \cup
-     (IF A!KeysIn(NonLit(Dir(OA, TRUE))) # A!KeysIn(Flip(NonLit(Dir(OC, FALSE)))) THEN {"C14.inversekeys"} ELSE {}) \cup
-     (IF NoTies(A!ConsOf(NonLit(Dir(OA, TRUE)))) # NoTies(A!ConsOf(Flip(NonLit(Dir(OC, FALSE))))) THEN {"C14.inverse"} ELSE {}) \cup
-     (IF NoTies(A!Facts(NonLit(Dir(OA, TRUE)))) # NoTies(A!Facts(Flip(NonLit(Dir(OC, FALSE))))) THEN {"C14.inversefacts"} ELSE {})
+     (IF goneB \cup goneC # {} /\ okB /\ okC THEN {"KF.C14.emptyside"} ELSE {}) \cup
+     (IF ~okB \/ ~(ObsKeys(OB0) \subseteq ObsKeys(OA0)) THEN {"C14.shapes"} ELSE {}) \cup
+     (IF ~okC \/ ~(ObsKeys(OC0) \subseteq ObsKeys(OA0)) THEN {"C14.inverseshapes"} ELSE {}) \cup
+     (IF A!Heads(OAb) # B!Heads(OB) THEN {"C14.counts"} ELSE {}) \cup
+     (IF A!ConsOf(Dir(OAb, FALSE)) # B!ConsOf(OB) THEN {"C14.direct"} ELSE {}) \cup
+     (IF A!Facts(Dir(OAb, FALSE)) # B!Facts(OB) THEN {"C14.directfacts"} ELSE {}) \cup
+     \* (in a tie group the reference that wins may be one to a shape that is removed later - the key goes with it, KF.C02.cleanref)
+     (IF NoTieKeys(A!KeysIn(NonLit(Dir(OAc, TRUE))), ta, tc) # NoTieKeys(A!KeysIn(Flip(NonLit(Dir(OC, FALSE)))), ta, tc) THEN {"C14.inversekeys"} ELSE {}) \cup
+     (IF NoTies(A!ConsOf(NonLit(Dir(OAc, TRUE)))) # NoTies(A!ConsOf(Flip(NonLit(Dir(OC, FALSE))))) THEN {"C14.inverse"} ELSE {}) \cup
+     (IF NoTies(A!Facts(NonLit(Dir(OAc, TRUE)))) # NoTies(A!Facts(Flip(NonLit(Dir(OC, FALSE))))) THEN {"C14.inversefacts"} ELSE {})
 
 \* ---- delivery (C08): what a channel delivered to each pass (hook pass.triple) is the document as a bag.
 \* A read event is <<subject kind, subject, predicate, object kind / datatype, object>>; literals are compared on their datatype.
